@@ -332,3 +332,29 @@ CHECKS = {
   "technique": "TLA+ spec (MetaCatalog.tla) model-checked by TLC; TLC-generated command logs replayed into real meta.Data with return, state and invariant comparison after every command",
  },
 }
+
+CHECKS["C05"] = {
+  "text": "TLC exhaustively checks Replication.tla (openGemini's layer around etcd/raft for one replica group of three stores: propose, "
+          "persist, replicate, commit, apply into the shard, acknowledge only after the proposer's own apply, memtable flush -> snapshot "
+          "index, leader-only ClearEntryLog truncation, SIGKILL of any store, restart with replay from the snapshot index, election, client "
+          "retries) for AckedOnQuorum, TruncationSafe, ReplayIdempotent and ReadAnyReplica within the cfg bounds and confirms that four "
+          "mutation seeds / as-implemented deviations each break the invariant they are meant to break. The same specification in "
+          "simulation mode is the fault-schedule generator (Write / Kill leader|follower, also while a write is in flight / Restart / Flush "
+          "/ Query); every schedule is driven into a REAL 3 ts-meta / 3 ts-store / 1 ts-sql cluster on loopback built from the tree under "
+          "verification (database with REPLICAS 3, ha-policy replication): writes and queries over HTTP through ts-sql, SIGKILL and restart "
+          "of ts-store processes, forced flushes, a background reader, and at the end the same query directed at every replica in turn "
+          "(/modifyRepDBMasterPt). The client-visible history (one global sequence counter) is validated by TLC against "
+          "TraceReplication.tla: every write acknowledged while a majority is up must be returned by every later query served by a "
+          "caught-up replica, nothing invented, nothing reverted, writes and queries served within their retry budget while a majority is "
+          "up. A directed schedule keeps one store down across a leader-side entry-log truncation.",
+  "design_ref": "DESIGN.md section 5 C05",
+  "note": "Bounds of the cfg files (3 nodes, <=3 terms/entries, 2 crashes, 1 truncation); etcd/raft, memberlist and serf are trusted; "
+          "schedules are enumerated on the specification side and run with ONE timing each on the cluster side (quick: 8 generated + 1 "
+          "directed schedule on 4 clusters); one sequential writer; meta and sql nodes are never killed, no network partitions; a "
+          "restarted store counts as caught up 5 s after meta reports it alive with its partition online; trace validation uses client "
+          "events only (no hooks inside raftconn), internal steps are left to TLC; open finding F-C05-1 (entry-log truncation ignores a "
+          "member that has been down longer than clear-entryLog-tolerate-time; the rejoining member never receives the truncated writes) "
+          "is re-observed by the directed schedule and attributed only when the stale replica returns exactly the writes acknowledged "
+          "before its kill and after the truncation point.",
+  "technique": "TLA+ spec (Replication.tla) model-checked by TLC; TLC-generated fault schedules driven into a real 3-store loopback cluster; recorded client histories validated by TLC against TraceReplication.tla",
+}
